@@ -56,7 +56,7 @@ def select__namespace_axis(self: XPathAxis, context: ta.ContextType = None) \
         return  # deprecated for XP20+ and not needed for schema analysis
     elif isinstance(context.item, ElementNode):
         elem = context.item
-        if self[0].symbol != 'namespace-node':
+        if self[0].symbol not in ('namespace-node', 'node'):
             name = self[0].value
         else:
             name = '*'
